@@ -15,17 +15,22 @@ if [ ${#ids[@]} -eq 1 ] && [[ "${ids[0]}" =~ ^C[0-9]+$ ]]; then
   [ ${#ids[@]} -eq 0 ] && { echo "no seeds for $want"; exit 0; }
 fi
 root=${VERIF_SCRATCH:-/var/tmp/verif-seeded.$$}; mkdir -p $root
-bad=0
-for id in "${ids[@]}"; do
+one() {
+  id=$1
   prop=$(python3 -c "import json;print(json.load(open('seeded/$id/meta.json'))['breaks_property'])")
   rule=$(python3 -c "import json;print(json.load(open('seeded/$id/meta.json'))['detected_by'].split(' ')[0])")
-  if [ "$rule" = "NONE" ]; then echo "$id $prop recorded as not decidable by this family (see meta.json): skipped"; continue; fi
+  if [ "$rule" = "NONE" ]; then echo "$id $prop recorded as not decidable by this family (see meta.json): skipped"; return 0; fi
   d=$root/$id; vd=$root/$id.verif; mkdir -p $vd; cp known-findings.json properties.jsonl $vd/
   rsync -a --exclude .git /repo/ $d/
-  if ! (cd $d && patch -p1 -s --no-backup-if-mismatch < "$OLDPWD/seeded/$id/patch.diff"); then echo "$id $prop stale (patch no longer applies)"; rm -rf $d $vd; continue; fi
+  if ! (cd $d && patch -p1 -s --no-backup-if-mismatch < "$OLDPWD/seeded/$id/patch.diff"); then echo "$id $prop stale (patch no longer applies)"; rm -rf $d $vd; return 0; fi
   out=$(bin/slogcheck -repo $d -property $prop -verif $vd); rc=$?
-  if [ $rc -eq 1 ] && echo "$out" | grep -q "\[violated\] $rule"; then echo "$id $prop caught by $rule"; else echo "$id $prop MISSED (exit $rc)"; bad=1; fi
   rm -rf $d $vd
-done
+  if [ $rc -eq 1 ] && echo "$out" | grep -q "\[violated\] $rule"; then echo "$id $prop caught by $rule"; return 0; else echo "$id $prop MISSED (exit $rc)"; return 1; fi
+}
+export -f one; export root
+# seeds are independent: run them ${SEED_JOBS:-6} at a time (one checker process each, about 1-3 GB)
+printf "%s\n" "${ids[@]}" | xargs -P ${SEED_JOBS:-6} -I{} bash -c 'one {}' > $root/out.txt; bad=$?
+sort $root/out.txt
 rm -rf $root
-exit $bad
+[ $bad -eq 0 ] || exit 1
+exit 0
